@@ -1,6 +1,7 @@
 package p_db
 
 import (
+	"bytes"
 	"context"
 	"fmt"
 	"sort"
@@ -8,10 +9,13 @@ import (
 	"testing"
 	"time"
 
+	"github.com/pkg/errors"
 	"github.com/spikeekips/mitum/base"
 	"github.com/spikeekips/mitum/isaac"
+	isaacblock "github.com/spikeekips/mitum/isaac/block"
 	isaacdatabase "github.com/spikeekips/mitum/isaac/database"
 	"github.com/spikeekips/mitum/util"
+	"github.com/spikeekips/mitum/util/fixedtree"
 	"pgregory.net/rapid"
 	"verif/internal/chain"
 	"verif/internal/ev"
@@ -29,6 +33,12 @@ import (
 // asking for everything that was ever stored (heights, suffrage heights and state keys of removed blocks too), so a
 // removal that only happened in memory shows up as a read that was "not found" before closing and is answered after
 // reopening.
+//
+// Another drawn step offers the center a block write database it has to refuse (a second, later-created block of a height
+// that is already held, of a lower height, or of a height with a gap: the same height processed twice, a late save, a
+// consensus/syncer race). The refused block was never served by the running storage: after close+reopen every read still
+// has to give what it gave before closing, and nothing of the refused block's content (its keys, heights, operation and
+// suffrage height are part of the list of reads).
 
 type c20PoolItems struct {
 	Ops       []base.Operation
@@ -116,6 +126,21 @@ type c20Ever struct {
 	Removed []base.Height // arguments of the effective RemoveBlocks calls
 }
 
+// noteRefused: the reads that only a refused block write database could answer stay in the list of reads too.
+func (v *c20Ever) noteRefused(rf *c20Refused) {
+	if rf.H > v.MaxH {
+		v.MaxH = rf.H
+	}
+
+	if rf.SufH > v.MaxSufH {
+		v.MaxSufH = rf.SufH
+	}
+
+	for _, k := range rf.Keys {
+		v.Keys[k] = struct{}{}
+	}
+}
+
 func (v *c20Ever) note(b *dbBlock) {
 	if b.H > v.MaxH {
 		v.MaxH = b.H
@@ -200,6 +225,205 @@ func c20Resurrected(before, after dbSnap) (name string, vb []byte, found bool) {
 	return "", nil, false
 }
 
+// c20Refused is a block write database the center refused (MergeBlockWriteDatabase answered with an error): it was never
+// part of what the storage served, so nothing of it may be served after a reopen either.
+type c20Refused struct {
+	H     base.Height
+	Kind  string
+	Marks []string // strings only the content of this block write database renders to (manifest hash, state value)
+	Keys  []string
+	SufH  base.Height // suffrage height of its suffrage proof (NilHeight: none)
+	Op    dbOpRef
+}
+
+type c20RefusedPlan struct {
+	H          base.Height
+	Kind       string
+	Keys       []int // indices into the key pool
+	WithSuf    bool
+	WithPolicy bool
+	MaxOps     uint64
+	Importer   bool // call order of isaacblock.BlockImporter (block map first) instead of isaacblock.Writer (block map after Write)
+}
+
+// c20OfferRefused writes a complete, well-formed block of height p.H (states of pool keys and of a key of its own, one
+// operation, optionally a suffrage state with its proof and a network policy state, a signed block map) into a new block
+// write database of the center with the calls isaacblock.Writer / isaacblock.BlockImporter make, and hands it to
+// Center.MergeBlockWriteDatabase. merr is the center's answer.
+func c20OfferRefused(e *dbEnv, p c20RefusedPlan) (rf *c20Refused, merr error, herr error) {
+	label := e.label("refused")
+	h := p.H
+	prior := e.M.prefix(int(h)) // the committed blocks below h
+
+	rf = &c20Refused{H: h, Kind: p.Kind, SufH: base.NilHeight}
+	rf.Op = dbOpRef{Op: gen.H(label + "/operation"), Fact: gen.H(label + "/fact"), InState: true, H: h}
+	rf.Marks = append(rf.Marks, label+"/value")
+
+	previous := func(key string) util.Hash {
+		if st, found := prior.state(key); found {
+			return st.Hash()
+		}
+
+		return nil
+	}
+
+	var sts []base.State
+
+	keys := []string{label + "-key"}
+	for _, k := range p.Keys {
+		keys = append(keys, dbKey(k))
+	}
+
+	for _, k := range keys {
+		sts = append(sts, base.NewBaseState(h, k, base.NewDummyStateValue(label+"/value/"+k), previous(k), []util.Hash{rf.Op.Fact}))
+	}
+
+	rf.Keys = keys
+
+	var sufst base.State
+
+	if members := prior.members(); p.WithSuf && len(members) > 0 {
+		rf.SufH = prior.maxSuffrageHeight() + 1
+		sufst = base.NewBaseState(h, isaac.SuffrageStateKey, isaac.NewSuffrageNodesStateValue(rf.SufH, members),
+			previous(isaac.SuffrageStateKey), []util.Hash{rf.Op.Fact})
+		sts = append(sts, sufst)
+	}
+
+	if p.WithPolicy {
+		pl := isaac.DefaultNetworkPolicy()
+		_ = pl.SetMaxOperationsInProposal(p.MaxOps)
+		sts = append(sts, base.NewBaseState(h, isaac.NetworkPolicyStateKey, isaac.NewNetworkPolicyStateValue(pl),
+			previous(isaac.NetworkPolicyStateKey), []util.Hash{rf.Op.Fact}))
+	}
+
+	tw, err := fixedtree.NewWriter(base.StateFixedtreeHint, uint64(len(sts)))
+	if err != nil {
+		return nil, nil, err
+	}
+
+	for i := range sts {
+		if err := tw.Add(uint64(i), fixedtree.NewBaseNode(sts[i].Hash().String())); err != nil {
+			return nil, nil, err
+		}
+	}
+
+	if err := tw.Write(func(uint64, fixedtree.Node) error { return nil }); err != nil {
+		return nil, nil, err
+	}
+
+	tree, err := tw.Tree()
+	if err != nil {
+		return nil, nil, err
+	}
+
+	var prevblock, suffrage util.Hash
+
+	switch {
+	case h <= base.GenesisHeight:
+	case int(h-1) < len(e.M.Blocks):
+		prevblock = e.M.Blocks[h-1].Map.Manifest().Hash()
+	default:
+		prevblock = gen.H(label + "/previous")
+	}
+
+	switch pb := prior.lastProof(); {
+	case sufst != nil:
+		suffrage = sufst.Hash()
+	case pb != nil:
+		suffrage = pb.Suf.Hash()
+	default:
+		suffrage = gen.H(label + "/suffrage")
+	}
+
+	bm := isaacblock.NewBlockMap()
+	bm.SetManifest(isaac.NewManifest(h, prevblock, gen.H(label+"/proposal"), gen.H(label+"/operationstree"), tree.Root(), suffrage,
+		e.M.Blocks[0].Map.Manifest().ProposedAt()))
+
+	for _, t := range []base.BlockItemType{base.BlockItemProposal, base.BlockItemVoteproofs, base.BlockItemOperations,
+		base.BlockItemOperationsTree, base.BlockItemStates, base.BlockItemStatesTree} {
+		if err := bm.SetItem(isaacblock.NewBlockMapItem(t, gen.H(label+"/checksum/"+t.String()).String())); err != nil {
+			return nil, nil, err
+		}
+	}
+
+	if err := bm.Sign(e.W.Local.Address(), e.W.Local.Privatekey(), e.W.NetworkID); err != nil {
+		return nil, nil, err
+	}
+
+	if err := bm.IsValid(e.W.NetworkID); err != nil {
+		return nil, nil, errors.WithMessage(err, "block map of the refused block")
+	}
+
+	rf.Marks = append(rf.Marks, bm.Manifest().Hash().String())
+
+	bw, err := e.W.DB.NewBlockWriteDatabase(h)
+	if err != nil {
+		return nil, nil, err
+	}
+
+	setProof := func() error {
+		if sufst == nil {
+			return nil
+		}
+
+		proof, err := tree.Proof(sufst.Hash().String())
+		if err != nil {
+			return err
+		}
+
+		return bw.SetSuffrageProof(isaacblock.NewSuffrageProof(bm, sufst, proof))
+	}
+
+	var steps []func() error
+
+	setContent := []func() error{
+		func() error { return bw.SetStates(sts) },
+		func() error { return bw.SetOperations([]util.Hash{rf.Op.Op}) },
+	}
+
+	if p.Importer {
+		steps = append([]func() error{func() error { return bw.SetBlockMap(bm) }}, setContent...)
+		steps = append(steps, setProof, bw.Write)
+	} else {
+		steps = append(setContent, bw.Write, func() error { return bw.SetBlockMap(bm) }, setProof)
+	}
+
+	for _, f := range steps {
+		if err := f(); err != nil {
+			_ = bw.Cancel()
+
+			return nil, nil, errors.WithMessage(err, "write the block write database")
+		}
+	}
+
+	merr = e.W.DB.MergeBlockWriteDatabase(bw)
+	if merr != nil {
+		_ = bw.Cancel() // isaacblock.Writer.Cancel / BlockImporter.CancelImport after a failed save
+	}
+
+	return rf, merr, nil
+}
+
+// c20RefusedVisible finds the first read that changed over the reopen and whose answer after reopening holds content of a
+// refused block write database (a special case of the before/after equality, reported under its own root cause).
+func c20RefusedVisible(before, after dbSnap, refused []*c20Refused) (name string, va, vb []byte, rf *c20Refused, found bool) {
+	for i := 0; i < len(before) && i < len(after); i++ {
+		if before[i].Name != after[i].Name || bytes.Equal(before[i].Value, after[i].Value) {
+			continue
+		}
+
+		for _, x := range refused {
+			for _, mark := range x.Marks {
+				if bytes.Contains(after[i].Value, []byte(mark)) && !bytes.Contains(before[i].Value, []byte(mark)) {
+					return before[i].Name, before[i].Value, after[i].Value, x, true
+				}
+			}
+		}
+	}
+
+	return "", nil, nil, nil, false
+}
+
 // c20Sig names the root cause of a before/after difference.
 func c20Sig(name string, before, after []byte) string {
 	switch {
@@ -228,19 +452,27 @@ func TestC20(t *testing.T) {
 	r.Rule("histories of 5..N drawn steps over a production-path chain (3-5 genesis nodes; blocks with filler states, candidate/join/disjoin, " +
 		"policy changes, not-in-state operations, empty and 350-key blocks; state caches 0/3/4096; mem storage, thorough also on-disk leveldb): " +
 		"next block, MergeAllPermanent, Center.RemoveBlocks(last | any unmerged height | merged or absent height = no-op) followed by the removal " +
-		"of the block files like launch.removePrevBlockFunc, pool writes (operations, proposals, INIT/ACCEPT ballots, expel operations, empty " +
+		"of the block files like launch.removePrevBlockFunc, refused merge (a complete second block write database - states of shared and own " +
+		"keys, an operation, optionally suffrage proof and policy, signed block map, written in Writer or BlockImporter call order - of the last " +
+		"height, of a lower height or of a height with a gap is handed to MergeBlockWriteDatabase, which answers with an error; 3 of 4 are " +
+		"followed by a reopen at once, the others stay on the storage while the history goes on), pool writes (operations, proposals, " +
+		"INIT/ACCEPT ballots, expel operations, empty " +
 		"heights). After every block, every merge and every RemoveBlocks (before a new block of the removed height exists): snapshot of every " +
 		"read of the center, of the permanent database and of the pool (objects re-encoded with the JSON encoder; *Bytes reads as encoder hint + " +
 		"meta + body; block maps, proofs and states of removed heights stay in the list of reads), close pool/center/storage, reopen the same " +
-		"storage, snapshot again, compare byte for byte (whether the answers are the right ones is C19's business). non-trivial: a reopen with " +
-		"a suffrage proof in the permanent store and >= 1 unmerged temp, or a reopen right after an effective RemoveBlocks; distinct by " +
+		"storage, snapshot again, compare byte for byte (whether the answers are the right ones is C19's business); keys, heights, suffrage " +
+		"heights and operations of refused block write databases are part of the reads. non-trivial: a reopen with " +
+		"a suffrage proof in the permanent store and >= 1 unmerged temp, or a reopen right after an effective RemoveBlocks, or the first reopen " +
+		"after a refused merge of a height that is held as a temp; distinct by " +
 		"(genesis size, cache, storage, step list)")
 	r.Floor(int64(r.N(15, 400)))
 	r.Assume("quiescent points only: no block write or merge is in flight when the storage is closed",
 		"TempPool.LastVoteproofs is kept in memory only by design and is not part of the stored pool contents",
 		"goleveldb (mem and file storage) is trusted",
 		"RemoveBlocks never takes the genesis block (the chain could not go on); after an effective removal the harness removes the block files "+
-			"of the removed heights like launch.removePrevBlockFunc does")
+			"of the removed heights like launch.removePrevBlockFunc does",
+		"a block write database the center refused is cancelled by its owner (Writer.Cancel / BlockImporter.CancelImport) and never offered again; "+
+			"whether MergeBlockWriteDatabase refuses what it has to refuse is C19's business")
 
 	maxSteps := r.N(12, 20)
 	r.Checks(60, 2400)
@@ -275,16 +507,24 @@ func TestC20(t *testing.T) {
 
 		var nontrivial bool
 
-		nreopen, ncompared, nremoved := 0, 0, 0
+		nreopen, ncompared, nremoved, nrefused := 0, 0, 0, 0
 		justRemoved := base.NilHeight // argument of an effective RemoveBlocks since the last reopen
+		justRefused := false          // a block write database of a height held as a temp was refused since the last reopen
+
+		var refused []*c20Refused
 
 		ever := &c20Ever{MaxH: base.NilHeight, MaxSufH: base.NilHeight, Keys: map[string]struct{}{}}
 		ever.note(e.M.last())
 
 		snapshot := func() dbSnap {
-			s := dbSnapshotReads(e, "center.", e.W.DB, e.M, e.AllOps)
+			ops := e.AllOps[:len(e.AllOps):len(e.AllOps)]
+			for _, rf := range refused {
+				ops = append(ops, rf.Op)
+			}
+
+			s := dbSnapshotReads(e, "center.", e.W.DB, e.M, ops)
 			s = append(s, c20EverSnapshot(e, "center.", e.W.DB, e.M, ever)...)
-			s = append(s, dbSnapshotReads(e, "perm.", e.W.Perm, e.M, e.AllOps)...)
+			s = append(s, dbSnapshotReads(e, "perm.", e.W.Perm, e.M, ops)...)
 			s = append(s, c20EverSnapshot(e, "perm.", e.W.Perm, e.M, ever)...)
 			s = append(s, c20PoolSnapshot(e, pool, items)...)
 
@@ -309,6 +549,16 @@ func TestC20(t *testing.T) {
 
 			hist.add("reopen")
 
+			// a refused block write database was never stored: what the storage answers after a reopen is what it answered before
+			// closing, not the refused block (a special case of the equality below, reported under its own root cause)
+			if len(refused) > 0 {
+				if name, va, vb, rf, found := c20RefusedVisible(before, after, refused); found {
+					r.Violation(rt, "refused-block-visible-after-reopen", "%s answers with content of the block write database of height %d that "+
+						"MergeBlockWriteDatabase refused (%s; last=%d, permanent store holds <= %d) after close+reopen: %s\nhistory: %s",
+						name, rf.H, rf.Kind, e.M.lastHeight(), e.PermLast, dbDiffCtx(va, vb), hist)
+				}
+			}
+
 			// removal is durable: what RemoveBlocks made unreadable stays unreadable over a reopen (a special case of the equality
 			// below, reported under its own root cause)
 			if len(ever.Removed) > 0 {
@@ -332,12 +582,17 @@ func TestC20(t *testing.T) {
 				nontrivial = true
 				justRemoved = base.NilHeight
 			}
+
+			if justRefused {
+				nontrivial = true
+				justRefused = false
+			}
 		}
 
 		reopenAndCompare()
 
 		for i := 0; i < nsteps; i++ {
-			switch act := rapid.SampledFrom([]string{"block", "block", "block", "block", "merge", "merge", "pool", "remove"}).Draw(rt, "act"); act {
+			switch act := rapid.SampledFrom([]string{"block", "block", "block", "block", "merge", "merge", "pool", "remove", "refused"}).Draw(rt, "act"); act {
 			case "block":
 				big := rapid.IntRange(0, 24).Draw(rt, "big") == 0
 				p := dbDrawBlock(rt, e, big)
@@ -394,6 +649,48 @@ func TestC20(t *testing.T) {
 
 				hist.add("remove(%d)=%v", h, removed)
 				reopenAndCompare()
+			case "refused":
+				last := e.M.lastHeight()
+				p := c20RefusedPlan{H: last, Kind: "same-height"}
+
+				switch which := rapid.SampledFrom([]string{"same", "same", "lower", "gap"}).Draw(rt, "refusedWhich"); {
+				case which == "lower" && last > base.GenesisHeight:
+					p.H, p.Kind = base.Height(rapid.IntRange(0, int(last)-1).Draw(rt, "lower")), "lower-height"
+				case which == "gap":
+					p.H, p.Kind = last+2+base.Height(rapid.IntRange(0, 1).Draw(rt, "gap")), "height-gap"
+				}
+
+				p.Keys = rapid.SliceOfNDistinct(rapid.IntRange(0, dbKeyPool-1), 0, 3, rapid.ID[int]).Draw(rt, "refusedKeys")
+				p.WithSuf = rapid.Bool().Draw(rt, "refusedSuffrage")
+				p.WithPolicy = rapid.IntRange(0, 2).Draw(rt, "refusedPolicy") == 0
+				p.MaxOps = uint64(rapid.IntRange(401, 500).Draw(rt, "refusedMaxops"))
+				p.Importer = rapid.Bool().Draw(rt, "refusedImporterOrder")
+				reopenNow := rapid.IntRange(0, 3).Draw(rt, "refusedReopenNow") > 0
+
+				rf, merr, err := c20OfferRefused(e, p)
+				if err != nil {
+					rt.Fatalf("harness: refused block write database of height %d: %+v\nhistory: %s", p.H, err, hist)
+				}
+
+				if merr == nil {
+					// whether MergeBlockWriteDatabase answers right is C19's business; the model cannot follow such an answer
+					rt.Fatalf("harness: MergeBlockWriteDatabase accepted a block write database of height %d; last=%d, permanent store holds <= %d\nhistory: %s",
+						p.H, last, e.PermLast, hist)
+				}
+
+				refused = append(refused, rf)
+				ever.noteRefused(rf)
+				nrefused++
+
+				if p.H > e.PermLast && p.H <= last {
+					justRefused = true
+				}
+
+				hist.add("refused(%s h=%d keys=%v suf=%v policy=%v importer=%v)", p.Kind, p.H, p.Keys, rf.SufH > base.NilHeight, p.WithPolicy, p.Importer)
+
+				if reopenNow {
+					reopenAndCompare()
+				}
 			case "merge":
 				if err := e.MergeAll(); err != nil {
 					r.Violation(rt, "merge-error", "MergeAllPermanent failed: %v\nhistory: %s", err, hist)
@@ -506,8 +803,13 @@ func TestC20(t *testing.T) {
 			classes = append(classes, "with-remove")
 		}
 
+		if nrefused > 0 {
+			classes = append(classes, "with-refused-merge")
+		}
+
 		r.Class("reopens", int64(nreopen))
 		r.Class("effective-removes", int64(nremoved))
+		r.Class("refused-merges", int64(nrefused))
 		r.Class("compared-reads", int64(ncompared))
 		r.Class("settle-timeouts", int64(e.SettleTimeouts))
 		r.Case(hist.String(), nontrivial, classes...)
